@@ -1,7 +1,7 @@
 """Shared exploration for C01 (no visible content lost/invented) and C02 (returned MathML is
 well-formed canonical MathML): term grammar G with deviation-bounded degenerate children, three
 separator locales, plus hand-listed normalisation-trigger families and an escaping family."""
-import json
+import json, re
 import xml.etree.ElementTree as ET
 from common import Run, norm_ids, is_ok, is_err, is_panic, val, short
 import terms, mcx, vis
@@ -270,6 +270,74 @@ def work(item):
     return viol, counts, nontriv
 
 
+# ---------------------------------------------------------------------------------------------
+# the same expression as different generators serialise it: MathJax class attributes (set_mathml strips them from the string before the
+# XML parse), other attributes, namespace prefixes, one element per line.  None of this is visible content, so the C01 oracle applies
+# to the result unchanged.
+
+def _decorate_tags(doc, attr, which="all"):
+    tags = list(re.finditer(r"<(m[a-z]+)((?:\s[^<>]*?)?)(/?)>", doc))
+    tags = [m for m in tags if m.group(1) != "math"]
+    if which == "ends" and len(tags) >= 2:
+        tags = [tags[0], tags[-1]]
+    elif which == "tokens":
+        tags = [m for m in tags if m.group(1) in ("mi", "mn", "mo", "mtext")]
+    out, last = [], 0
+    for m in tags:
+        out.append(doc[last:m.start()])
+        out.append(f"<{m.group(1)}{m.group(2)} {attr}{m.group(3)}>")
+        last = m.end()
+    out.append(doc[last:])
+    return "".join(out)
+
+
+SURFACES = {
+    "mjx2-all": lambda d: _decorate_tags(d, 'class="MJX-TeXAtom-ORD"'),
+    "mjx2-ends": lambda d: _decorate_tags(d, 'class="MJX-TeXAtom-ORD"', "ends"),
+    "mjx2-tokens-squote": lambda d: _decorate_tags(d, "class='MJX-variant'", "tokens"),
+    "mjx2-spaced": lambda d: _decorate_tags(d, 'class = "MJX-TeXAtom-OP"', "ends"),
+    "mjx3-all": lambda d: _decorate_tags(d, 'class="data-mjx-texclass"'),
+    "mjx3-ends": lambda d: _decorate_tags(d, 'class="data-mjx-variant"', "ends"),
+    "mjx2-then-title": lambda d: _decorate_tags(_decorate_tags(d, 'title="t"', "tokens"), 'class="MJX-TeXAtom-ORD"', "ends"),
+    "class-other": lambda d: _decorate_tags(d, 'class="hl"', "all"),
+    "prefix-m": lambda d: re.sub(r"<(/?)(m[a-z]+)", r"<\1m:\2", d).replace("<m:math", '<m:math xmlns:m="http://www.w3.org/1998/Math/MathML"', 1),
+    "lines": lambda d: d.replace("><", ">\n<"),
+    "mjx2-all-lines": lambda d: _decorate_tags(d, 'class="MJX-TeXAtom-ORD"').replace("><", ">\n<"),
+}
+
+
+def work_surface(item):
+    prop, locale, cases = item          # cases: list of (label, term, surface)
+    mc = mcx.worker_mc()
+    setup = [["rules_dir", mcx.RULES], ["pref", "TTS", "none"]] + LOCALES[locale]
+    docs = [SURFACES[sf](terms.doc(t)) for _, t, sf in cases]
+    _, res = mc.run_cases(setup, [[["mathml", d]] for d in docs])
+    viol, counts, nontriv = [], {"evaluations": 0, "surface_accepted": 0, "surface_rejected": 0, "skipped_panics": 0}, []
+    for (label, t, sf), d, r in zip(cases, docs, res):
+        counts["evaluations"] += 1
+        r0 = r[0]
+        replay = {"locale": locale, "label": label, "doc": terms.doc(t), "surface": sf, "sent": d}
+        if is_panic(r0):
+            counts["skipped_panics"] += 1
+            continue
+        if not is_ok(r0):
+            counts["surface_rejected"] += 1
+            continue
+        counts["surface_accepted"] += 1
+        try:
+            tout = terms.parse_xml(val(r0))
+        except ET.ParseError:
+            continue
+        nontriv.append(hash(vis.N(vis.vis(t), True)) ^ hash((label_class(label), sf)))
+        for k, w in c01_check(label, t, tout):
+            viol.append((f"C01|surface:{sf}|{k}", f"[{locale}] {label} serialised as {sf}: {w}", replay))
+    return viol, counts, nontriv
+
+
+def _dispatch(job):
+    return work_surface(job[1:]) if job[0] == "SURFACE" else work(job)
+
+
 def label_class(label):
     """'sup[1:frac]|empty-mi@0/1' -> 'sup|empty-mi': outermost construct + deviation operators (paths dropped)"""
     parts = label.split("|")
@@ -373,7 +441,10 @@ def confirm_for(prop):
         mcx._worker_mc = mc
         try:
             t = terms.parse_xml(replay["doc"]).kids[0]
-            v, _, _ = work((prop, replay["locale"], [(replay["label"], t)]))
+            if replay.get("surface"):
+                v, _, _ = work_surface((prop, replay["locale"], [(replay["label"], t, replay["surface"])]))
+            else:
+                v, _, _ = work((prop, replay["locale"], [(replay["label"], t)]))
         finally:
             mcx._worker_mc = old
             mc.close()
@@ -404,7 +475,14 @@ def main(prop, tier):
         return 2
     for i in (5, len(cases) // 2, len(cases) - 7):
         run.sample({"label": cases[i][0], "input": terms.doc(cases[i][1])})
-    for viol, counts, nontriv in mcx.pmap(work, jobs):
+    if prop == "C01":
+        l0 = [c for c in cases if "|" not in c[0]]
+        l0 = l0 if tier == "thorough" else l0[::3]
+        sc = [(label, t, sf) for label, t in l0 for sf in SURFACES]
+        run.count("surface_cases", len(sc))
+        for i in range(0, len(sc), 1500):
+            jobs.append(("SURFACE", prop, "US", sc[i:i + 1500]))
+    for viol, counts, nontriv in mcx.pmap(_dispatch, jobs):
         run.merge_violations(viol)
         run.merge_counts(counts)
         for h in nontriv:
@@ -414,6 +492,8 @@ def main(prop, tier):
             "6 wrappers, 9 attributes) at every node of every %s term and of the trigger terms%s; x 3 separator locales (US, EU, de-CH). "
             % (len(special_terms()), "depth-1" if tier == "quick" else "depth-2", "" if tier == "quick" else "; level 2: pairs of deviations on depth-1 terms"))
     if prop == "C01":
+        rule += ("Serialisations: " + ("every" if tier == "thorough" else "every third") + " level-0 term x %d surface forms (MathJax v2/v3 class attributes on all / first and last / token "
+                 "elements, other attributes, m: namespace prefix, one element per line). " % len(SURFACES))
         rule += "distinct_nontrivial = distinct (normalised visible text, shape label) pairs among accepted inputs"
     else:
         rule += "distinct_nontrivial = distinct returned trees (ids stripped)"
